@@ -205,3 +205,4 @@ def run(chk):
     chk.xref("OverlayStore.is_supported calls key() (TypeError when the overlay does not support the key)")
     chk.xref("OverlayStore.sync calls fallback.sync() - a no-op for memory/directory stores (whitelisted read)")
     X.rule_overlay_recursion_own_view(chk, "C15.6")
+    X.rule_store_metadata_fresh(chk, "C15.7")
